@@ -79,6 +79,11 @@ func (b *builder) process() error {
 		complexity = 0
 	}
 
+	// A program with no instructions computes only the first chain element.
+	if len(b.chain.Statements) == 0 {
+		b.chain.Statements = append(b.chain.Statements, ast.Statement{Expr: ast.Operand(0)})
+	}
+
 	// Clear the name of the final statement.
 	b.chain.Statements[len(b.chain.Statements)-1].Name = ""
 
